@@ -42,4 +42,12 @@ def insertSorted (x : List Nat) : List (List Nat) → List (List Nat)
 
 def sortBatches (l : List (List Nat)) : List (List Nat) := l.foldr insertSorted []
 
+/-- field-by-field comparison; `none` when equal -/
+def diffFields (exp got : List (String × String)) : Option String :=
+  let bad := exp.filter fun (k, v) => got.lookup k != some v
+  if bad.isEmpty then none else
+    some ("fields=" ++ ",".intercalate (bad.map (·.1)) ++ " expected " ++
+      " ".intercalate (bad.map fun (k, v) => k ++ "=" ++ v) ++ " observed " ++
+      " ".intercalate (bad.map fun (k, _) => k ++ "=" ++ (got.lookup k).getD "?"))
+
 end GoBatcher.Driver
